@@ -135,6 +135,7 @@ def eval_reuse(case):
 
 
 DEFECTS = ['no_at', 'no_bat', 'no_m1', 'bad_m2', 'no_bm', 'undeclared', 'm3_not_callable']
+# bm is *overridden*: IBase says bm(x), I says bm(x, y); only the override counts
 
 
 def eval_subset(case):
@@ -143,7 +144,11 @@ def eval_subset(case):
     flags = set(flags)
     IBase = InterfaceClass('IBase', (Interface,), {
         'bat': Attribute('the base attr'), 'bm': mkfunc('x', 'bm'), '__module__': wmod()})
-    I = InterfaceClass('I', (IBase,), {
+    # a diamond in which only the later branch overrides bm: IBase.bm(x),
+    # IS1(IBase) inherits it, IS2(IBase) says bm(x, y); I(IS1, IS2)
+    IS1 = InterfaceClass('IS1', (IBase,), {'__module__': wmod()})
+    IS2 = InterfaceClass('IS2', (IBase,), {'bm': mkfunc('x, y', 'bm'), '__module__': wmod()})
+    I = InterfaceClass('I', (IS1, IS2), {
         'at': Attribute('the attr'), 'm1': mkfunc('', 'm1'), 'm2': mkfunc('a, b', 'm2'),
         'm3': mkfunc('', 'm3'), '__module__': wmod()})
     ns = {}
@@ -151,21 +156,34 @@ def eval_subset(case):
         ns['m1'] = mkfunc('self', 'm1')
     ns['m2'] = mkfunc('self, a, b, c' if 'bad_m2' in flags else 'self, a, b=1', 'm2')
     if 'no_bm' not in flags:
-        ns['bm'] = mkfunc('self, x', 'bm')
+        ns['bm'] = mkfunc('x, y' if vkind == 'provider' else 'self, x, y', 'bm')
     ns['m3'] = 42 if 'm3_not_callable' in flags else mkfunc('self', 'm3')
     # attributes live on the class so that verifyClass can see them too
     if 'no_at' not in flags:
         ns['at'] = 1
     if 'no_bat' not in flags:
         ns['bat'] = 2
+    if vkind == 'provider':
+        # the class object itself is the candidate: its functions are reached
+        # unbound, so they take no self
+        for nm_ in ('m1', 'm2', 'm3'):
+            if callable(ns.get(nm_)):
+                ns[nm_] = staticmethod(mkfunc(
+                    {'m1': '', 'm3': ''}.get(nm_, 'a, b, c' if 'bad_m2' in flags else 'a, b=1'), nm_))
+        if 'bm' in ns:
+            ns['bm'] = staticmethod(ns['bm'])
     K = type('K', (), ns)
-    if 'undeclared' not in flags:
+    if vkind == 'provider':
+        if 'undeclared' not in flags:
+            directlyProvides(K, I)
+    elif 'undeclared' not in flags:
         implementer(I)(K)
     exp = []
     if 'undeclared' in flags and not tentative:
         exp.append(('DoesNotImplement', None))
-    if vkind == 'object':
-        # attributes are only required of objects
+    if vkind in ('object', 'provider'):
+        # attributes are only required of objects (a class that provides the
+        # interface is such an object)
         if 'no_at' in flags:
             exp.append(('BrokenImplementation', 'at'))
         if 'no_bat' in flags:
@@ -179,7 +197,7 @@ def eval_subset(case):
     if 'm3_not_callable' in flags:
         exp.append(('BrokenMethodImplementation', 'm3'))
     cand = K() if vkind == 'object' else K
-    v = verifyObject if vkind == 'object' else verifyClass
+    v = verifyClass if vkind == 'class' else verifyObject
 
     def desc(e):
         t = type(e).__name__
@@ -250,7 +268,7 @@ def run(ctx):
     for r in range(0, len(DEFECTS) + 1):
         for flags in itertools.combinations(DEFECTS, r):
             for tentative in (False, True):
-                for vk in ('object', 'class'):
+                for vk in ('object', 'class', 'provider'):
                     cases.append(('subset', (flags, tentative, vk)))
     ROLES = ('func-attr', 'method', 'class')
     cases += [('reuse', (a, b, o)) for a in GRID for b in GRID
